@@ -339,4 +339,13 @@ example : scanBlock RU { way := fun w => w.id % 2 == 0 }
     { strings := ["", "k", "v"], groups := [.ways [{ id := 1, keys := some [1], vals := some [2], refs := some [5, 1] }, { id := 2 }, { id := 4, refs := some [] }]] } =
     some [.way { id := 2 }, .way { id := 4 }] := by decide
 
+/-- dense nodes and relations: a block that decodes (hypothesis of `scanBlock_eq_filter`), filtered by both kinds -/
+def exB : Block := { strings := ["", "k", "v", "r"], groups := [
+  .dense { ids := [1, 1, 1], lat := [10, 1, 1], lon := [20, 1, 1], kv := some [1, 2, 0, 0, 1, 2, 0] },
+  .rels [{ id := 7, roles := some [3], memids := some [2], types := some [0] }, { id := 8 }]] }
+example : (decodeBlock exB).map (·.length) = some 5 := by decide
+example : (scanBlock RU { node := fun n => n.id % 2 == 1, rel := fun r => r.id == 8 } exB).map
+    (·.map fun o => match o with | .node n => ("n", n.id) | .way w => ("w", w.id) | .rel r => ("r", r.id)) =
+    some [("n", 1), ("n", 3), ("r", 8)] := by decide
+
 end OsmVerif.Props.C08
